@@ -10,6 +10,8 @@ import copy
 from dataclasses import dataclass, field
 
 from .absim import (
+    Cand,
+    LabelTok,
     EMPTY_ATOMS,
     NONE,
     Bound,
@@ -198,11 +200,20 @@ class Scenario:
                 return V(("labels", ("del", args[0].term[1], args[1].parts)))
             return V(("labels", ("new", m.fresh("lab"))))
         if full == "numpy.setdiff1d":
+            taken = args[1] if len(args) > 1 else None
+            if isinstance(taken, list):
+                return Cand("setdiff1d", True, tuple(t.tid for t in taken if isinstance(t, LabelTok)))
             return Opaque("setdiff1d", True)
         if full == "numpy.unique":
             if args and isinstance(args[0], list):
-                # labels collected from successive draws over candidate sets that exclude the ones already taken
-                return list(args[0])
+                toks = list(args[0])
+                # labels collected from successive draws: distinct for sure only where each later draw came from a
+                # candidate set that excludes the earlier ones (np.setdiff1d(all, taken)); otherwise two of them
+                # may be the same label value — both outcomes are explored
+                unsure = [j for j in range(len(toks)) for i in range(j) if isinstance(toks[i], LabelTok) and isinstance(toks[j], LabelTok) and toks[i].tid not in toks[j].excluded]
+                if unsure and m.ch.choose(2, f"{fi.name}:labels-coincide@{getattr(e, 'lineno', 0)}") == 1:
+                    del toks[unsure[0]]
+                return toks
             return Opaque("unique", True)
         return None
 
